@@ -35,5 +35,7 @@ def gen(tier, rng):
     yield nodegen.forge_script(rng, "forged-seals", rng.choice([1, 2, 3]))
     # replays of genuine payload after key rotations: every key slot's window keeps moving with the ticks, a datagram replayed two or more ticks late is dead
     yield nodegen.long_session_script(rng, "replay-after-rotation", 400, drop_at=(), replay_age=(2, 5, 30))
+    # a replayed ping leaves an attempt pending next to the established session for 120 ticks: the session's replay window keeps moving all the same
+    yield nodegen.long_session_script(rng, "replay-with-stale-attempt", 150, drop_at=(), replay_age=(2, 5), stale_ping_at=(20, 70))
     for i in range(20 if thorough else 3):
         yield nodegen.attack_script(rng, "attack-%d" % i, rng.choice([2, 3]), 14, long_gap=rng.choice([30, 61, 121]))
